@@ -126,9 +126,10 @@ class Path:
 class Summary:
     """guarded transitions of one handler body"""
 
-    def __init__(self, P, E, hb, item_param=3, item_kind="item", sink_param=None, serial_param=None):
+    def __init__(self, P, E, hb, item_param=3, item_kind="item", sink_param=None, serial_param=None, sink_upvar=None):
         self.P, self.E, self.b = P, E, hb
         self.sink_param = sink_param
+        self.sink_upvar = sink_upvar
         self.serial_param = serial_param
         self.item_param = item_param
         self.item_kind = item_kind
@@ -144,7 +145,11 @@ class Summary:
             if t[0] in ("const", "unk", "val", "discr"):
                 return None
             gs = self.P.global_cell(self.b, t, through_helpers=True)
-            out |= gs
+            for g in gs:
+                # the Ok payload of a try_read/try_write/try_lock result is the guard, i.e. the cell itself
+                if len(g[3]) >= 2 and g[3][0] == "@Ok" and g[3][1] == "0":
+                    g = (g[0], g[1], g[2], tuple(g[3][2:]))
+                out.add(g)
         return out
 
     def _alloc_kind(self, g):
@@ -220,37 +225,56 @@ class Summary:
                 res = ("obj", norm(p))
                 break
         elif rk == "param" and rd == 1 and path and body.kind == "assoc" and body.impl_self is not None:
-            res = self._field_kind(norm(ty_adt(body.impl_self) or ""), path[0]) or ("ext", None)
+            res = self._field_kind(norm(ty_adt(body.impl_self) or ""), path) or ("ext", None)
         elif rk in ("param", "upvar") or (rk == "ret" and path):
             res = ("ext", None)
         self.cellinfo[g] = res
         return res
 
-    def _field_kind(self, adt, field):
-        """kind of a lock-typed field of `adt`, read off the aggregate its constructor builds"""
-        a = self.P.adts.get(adt)
-        if a is None or len(a["variants"]) != 1:
-            return None
-        names = [f["name"] for f in a["variants"][0]["fields"]]
+    def _field_kind(self, adt, path):
+        """kind of a lock-typed field of `adt` (possibly nested in private state structs: self.shared.last_item), read off
+        the aggregate its constructor builds"""
+        if isinstance(path, str):
+            path = (path,)
         ren = self.P.facts.get("_field_renames_q") or {}
-        canon = [ren.get((adt, n), n) for n in names]
-        if field not in canon:
+
+        def field_index(adt_, name):
+            a = self.P.adts.get(adt_)
+            if a is None or len(a["variants"]) != 1:
+                return None
+            canon = [ren.get((adt_, f["name"]), f["name"]) for f in a["variants"][0]["fields"]]
+            return canon.index(name) if name in canon else None
+
+        def descend(cb, rv, adt_, rest, depth=0):
+            """rv: aggregate rvalue of adt_ in body cb; rest: remaining field path"""
+            if depth > 4 or not rest:
+                return None
+            idx = field_index(adt_, rest[0])
+            if idx is None or idx >= len(rv["ops"]):
+                return None
+            for t in cb.operand_prov(rv["ops"][idx]):
+                if len(rest) == 1:
+                    if t[0] == "ret" and not t[2]:
+                        k = self._alloc_kind((cb.id, "ret", t[1], ()))
+                        if k and k[0] in ("int", "flag", "optcell", "cont"):
+                            return k
+                elif t[0] == "agg":
+                    rv2 = cb.blocks[t[1][0]]["stmts"][t[1][1]]["rv"]
+                    if rv2.get("ak") == "adt":
+                        r_ = descend(cb, rv2, norm(rv2.get("def") or ""), rest[1:], depth + 1)
+                        if r_:
+                            return r_
             return None
-        idx = canon.index(field)
+
         for cb in self.P.bodies.values():
             if cb.kind not in ("assoc", "fn") or cb.id in self.P.absorbed:
                 continue
             for i in sorted(cb.reach):
                 for st in cb.blocks[i]["stmts"]:
                     if st["k"] == "assign" and st["rv"]["k"] == "agg" and st["rv"].get("ak") == "adt" and norm(st["rv"].get("def") or "") == adt:
-                        ops = st["rv"]["ops"]
-                        if idx >= len(ops):
-                            continue
-                        for t in cb.operand_prov(ops[idx]):
-                            if t[0] == "ret" and not t[2]:
-                                k = self._alloc_kind((cb.id, "ret", t[1], ()))
-                                if k and k[0] in ("int", "flag", "optcell", "cont"):
-                                    return k
+                        k = descend(cb, st["rv"], adt, tuple(path))
+                        if k:
+                            return k
         return None
 
     def _sym(self, g):
@@ -510,7 +534,7 @@ class Summary:
     @staticmethod
     def _vkind(v):
         if isinstance(v, tuple) and v:
-            if v[0] in ("item", "front", "back", "bufcopy", "window", "captured", "stored", "mapped", "error", "combined"):
+            if v[0] in ("item", "front", "back", "bufcopy", "window", "captured", "stored", "mapped", "error", "combined", "subscription"):
                 return v[0]
             if v[0] == "int":
                 return "int"
@@ -858,8 +882,9 @@ class Summary:
             if self._value_kind(p, v_) is not None:
                 return done(p, v_ if (isinstance(v_, tuple) and v_ and v_[0] == "boxed") else ("boxed", v_))
             return done(p)
-        if a in ("obs_next", "obs_error", "obs_complete") and self.sink_param is not None and c.args and all(
-                t_[0] == "param" and t_[1] == self.sink_param for t_ in b.operand_prov(c.args[0])):
+        if a in ("obs_next", "obs_error", "obs_complete") and c.args and (
+                (self.sink_param is not None and all(t_[0] == "param" and t_[1] == self.sink_param for t_ in b.operand_prov(c.args[0])))
+                or (self.sink_upvar is not None and all(t_[0] == "upvar" and t_[1] == self.sink_upvar for t_ in b.operand_prov(c.args[0])))):
             # the subscriber itself (creation functions emit on it directly)
             if a == "obs_next":
                 p.trace.append(("sink_next", self._payload_kind(p, c, 1)))
@@ -884,6 +909,12 @@ class Summary:
         if a in ("sink_next",):
             p.trace.append(("sink_next", self._payload_kind(p, c, 1)))
             return done(p)
+        if a == "sub_unsubscribe":
+            p.trace.append(("sub_unsubscribe", self._payload_kind(p, c, 0)))
+            return done(p)
+        if a == "subscribe" and self.sink_param is None:
+            p.trace.append(("subscribe", "source"))
+            return done(p, ("subscription",))
         if a in ("sink_error", "sink_complete", "sink_complete_force", "abort", "finalize"):
             p.trace.append((a,))
             return done(p)
@@ -922,7 +953,7 @@ class Summary:
                     return done(p, v[2])
                 return done(p, v)
             return done(p)
-        if self.sink_param is not None and path.startswith("std::iter::Iterator::"):
+        if (self.sink_param is not None or self.sink_upvar is not None) and path.startswith("std::iter::Iterator::"):
             for t in self.E.inline_targets(c):
                 if self.E.may(t) & {"obs_next"}:
                     p.trace.append(("sink_next", "other"))
@@ -1125,7 +1156,7 @@ class Summary:
 
 
 # ---- operator tables ------------------------------------------------------------------------
-ALPHABET = {"user_fn", "remember", "combine", "reversed", "subscribe", "sink_next", "sink_complete", "sink_complete_force", "sink_error", "abort", "finalize", "push_back", "push_front",
+ALPHABET = {"user_fn", "remember", "combine", "reversed", "subscribe", "sub_unsubscribe", "sink_next", "sink_complete", "sink_complete_force", "sink_error", "abort", "finalize", "push_back", "push_front",
             "pop_front", "pop_back", "clear", "take_all", "window_next", "window_complete", "window_error", "store",
             "panic", "loop", "opaque", "cont_replace", "cont_truncate", "cont_drain", "cont_retain", "cont_remove",
             "cont_insert", "cont_append", "cont_extend", "cont_split_off", "cont_resize", "cont_swap_remove"}
